@@ -15,14 +15,15 @@ its window contains `a*q0 + ρ` because `0 ≤ ρ ≤ H` (no contribution is los
 namespace C04
 open Nest C01
 
-/-- `splitUniform(step, depth=d, post_halo=halo)` on points -/
-def splitHaloAt (d step halo : Nat) (P : Pts) : Pts :=
+/-- `splitUniform(step, depth=d, pre_halo=pre, post_halo=halo)` on points: the element at `w` lands in every partition `j*step`
+    (`j ≥ 0`) whose window `[j*step - pre, j*step + step + halo)` contains it -/
+def splitHaloAt (d step pre halo : Nat) (P : Pts) : Pts :=
   P.flatMap fun (cs, v) =>
     match cs[d]? with
     | none => []
     | some w =>
-      (List.range (w / step + 1)).filterMap fun j =>
-        if j * step ≤ w ∧ w < j * step + step + halo then some (cs.take d ++ [j * step, w] ++ cs.drop (d + 1), v) else none
+      (List.range ((w + pre) / step + 1)).filterMap fun j =>
+        if j * step ≤ w + pre ∧ w < j * step + step + halo then some (cs.take d ++ [j * step, w] ++ cs.drop (d + 1), v) else none
 
 theorem sumAt_filterMap_range (τ : List Nat) (m : Nat) (g : Nat → Option (List Nat × Int)) :
     sumAt τ ((List.range m).filterMap g) =
@@ -83,27 +84,27 @@ theorem img_eq_iff (cs pre post : List Nat) (d x w' p w : Nat) (hd : pre.length 
     simp
 
 /-- reading the halo-split tensor: partition `p`, element `w` -/
-theorem sumAt_splitHaloAt (d step halo : Nat) (hs : 0 < step) (pre post : List Nat) (p w : Nat) (hd : pre.length = d) :
-    ∀ P : Pts, sumAt (pre ++ p :: w :: post) (splitHaloAt d step halo P) =
-      if p % step = 0 ∧ p ≤ w ∧ w < p + step + halo then sumAt (pre ++ w :: post) P else 0
+theorem sumAt_splitHaloAt (d step pre0 halo : Nat) (hs : 0 < step) (pre post : List Nat) (p w : Nat) (hd : pre.length = d) :
+    ∀ P : Pts, sumAt (pre ++ p :: w :: post) (splitHaloAt d step pre0 halo P) =
+      if p % step = 0 ∧ p ≤ w + pre0 ∧ w < p + step + halo then sumAt (pre ++ w :: post) P else 0
   | [] => by simp [splitHaloAt, sumAt]
   | (cs, v) :: ps => by
-    have ih := sumAt_splitHaloAt d step halo hs pre post p w hd ps
-    have hcons : splitHaloAt d step halo ((cs, v) :: ps) =
+    have ih := sumAt_splitHaloAt d step pre0 halo hs pre post p w hd ps
+    have hcons : splitHaloAt d step pre0 halo ((cs, v) :: ps) =
         (match cs[d]? with
          | none => []
-         | some w' => (List.range (w' / step + 1)).filterMap fun j =>
-            if j * step ≤ w' ∧ w' < j * step + step + halo then some (cs.take d ++ [j * step, w'] ++ cs.drop (d + 1), v) else none) ++
-        splitHaloAt d step halo ps := by
+         | some w' => (List.range ((w' + pre0) / step + 1)).filterMap fun j =>
+            if j * step ≤ w' + pre0 ∧ w' < j * step + step + halo then some (cs.take d ++ [j * step, w'] ++ cs.drop (d + 1), v) else none) ++
+        splitHaloAt d step pre0 halo ps := by
       simp [splitHaloAt]
     rw [hcons, sumAt_append, ih, sumAt_cons]
     -- the images of the single point `(cs, v)`
     have himg : sumAt (pre ++ p :: w :: post)
         (match cs[d]? with
          | none => []
-         | some w' => (List.range (w' / step + 1)).filterMap fun j =>
-            if j * step ≤ w' ∧ w' < j * step + step + halo then some (cs.take d ++ [j * step, w'] ++ cs.drop (d + 1), v) else none) =
-        if cs = pre ++ w :: post ∧ (p % step = 0 ∧ p ≤ w ∧ w < p + step + halo) then v else 0 := by
+         | some w' => (List.range ((w' + pre0) / step + 1)).filterMap fun j =>
+            if j * step ≤ w' + pre0 ∧ w' < j * step + step + halo then some (cs.take d ++ [j * step, w'] ++ cs.drop (d + 1), v) else none) =
+        if cs = pre ++ w :: post ∧ (p % step = 0 ∧ p ≤ w + pre0 ∧ w < p + step + halo) then v else 0 := by
       cases hw' : cs[d]? with
       | none =>
         simp only [sumAt_nil]
@@ -116,13 +117,13 @@ theorem sumAt_splitHaloAt (d step halo : Nat) (hs : 0 < step) (pre post : List N
         simp only
         rw [sumAt_filterMap_range]
         -- per partition index `j`: the image matches iff the point is the target element and `j*step = p`
-        have hterm : ∀ j, (match (if j * step ≤ w' ∧ w' < j * step + step + halo then
+        have hterm : ∀ j, (match (if j * step ≤ w' + pre0 ∧ w' < j * step + step + halo then
               some (cs.take d ++ [j * step, w'] ++ cs.drop (d + 1), v) else none : Option (List Nat × Int)) with
             | some pt => if pt.1 = pre ++ p :: w :: post then pt.2 else 0
             | none => 0) =
-            if (j * step ≤ w' ∧ w' < j * step + step + halo) ∧ (cs = pre ++ w :: post ∧ j * step = p) then v else 0 := by
+            if (j * step ≤ w' + pre0 ∧ w' < j * step + step + halo) ∧ (cs = pre ++ w :: post ∧ j * step = p) then v else 0 := by
           intro j
-          by_cases hv : j * step ≤ w' ∧ w' < j * step + step + halo
+          by_cases hv : j * step ≤ w' + pre0 ∧ w' < j * step + step + halo
           · rw [if_pos hv]
             simp only
             by_cases he : cs = pre ++ w :: post ∧ j * step = p
@@ -130,18 +131,18 @@ theorem sumAt_splitHaloAt (d step halo : Nat) (hs : 0 < step) (pre post : List N
             · rw [if_neg (fun e => he ((img_eq_iff cs pre post d (j * step) w' p w hd hw').1 e)), if_neg (fun h => he h.2)]
           · rw [if_neg hv, if_neg (fun h => hv h.1)]
         rw [sum_map_congr _ _ _ (fun j _ => hterm j)]
-        by_cases hmatch : cs = pre ++ w :: post ∧ (p % step = 0 ∧ p ≤ w ∧ w < p + step + halo)
+        by_cases hmatch : cs = pre ++ w :: post ∧ (p % step = 0 ∧ p ≤ w + pre0 ∧ w < p + step + halo)
         · obtain ⟨hcs, hp0, hp1, hp2⟩ := hmatch
           have hdec := (take_drop_decomp cs pre post d w hd).2 hcs
           have hww : w' = w := by rw [hdec.1] at hw'; exact (Option.some.inj hw').symm
           subst hww
           rw [if_pos ⟨hcs, hp0, hp1, hp2⟩]
-          have hj : p / step < w' / step + 1 := by
+          have hj : p / step < (w' + pre0) / step + 1 := by
             have := Nat.div_le_div_right (c := step) hp1
             omega
           have hpj : p / step * step = p := Nat.div_mul_cancel (Nat.dvd_of_mod_eq_zero hp0)
-          exact sum_pred_single (w' / step + 1) (p / step)
-            (fun j => (j * step ≤ w' ∧ w' < j * step + step + halo) ∧ (cs = pre ++ w' :: post ∧ j * step = p)) (fun _ => v) hj
+          exact sum_pred_single ((w' + pre0) / step + 1) (p / step)
+            (fun j => (j * step ≤ w' + pre0 ∧ w' < j * step + step + halo) ∧ (cs = pre ++ w' :: post ∧ j * step = p)) (fun _ => v) hj
             ⟨⟨by rw [hpj]; exact hp1, by rw [hpj]; exact hp2⟩, hcs, hpj⟩
             (fun c _ hc => by
               have : c * step = p / step * step := by rw [hpj]; exact hc.2.2
@@ -149,7 +150,7 @@ theorem sumAt_splitHaloAt (d step halo : Nat) (hs : 0 < step) (pre post : List N
         · rw [if_neg hmatch]
           apply sum_map_zero
           intro j _
-          have : ¬ ((j * step ≤ w' ∧ w' < j * step + step + halo) ∧ (cs = pre ++ w :: post ∧ j * step = p)) := by
+          have : ¬ ((j * step ≤ w' + pre0 ∧ w' < j * step + step + halo) ∧ (cs = pre ++ w :: post ∧ j * step = p)) := by
             rintro ⟨hv, hcs, hjp⟩
             apply hmatch
             have hdec := (take_drop_decomp cs pre post d w hd).2 hcs
@@ -161,7 +162,7 @@ theorem sumAt_splitHaloAt (d step halo : Nat) (hs : 0 < step) (pre post : List N
             · rw [← hjp]; exact hv.2
           rw [if_neg this]
     rw [himg]
-    by_cases hc : p % step = 0 ∧ p ≤ w ∧ w < p + step + halo
+    by_cases hc : p % step = 0 ∧ p ≤ w + pre0 ∧ w < p + step + halo
     · simp only [hc, and_self, and_true, if_true, sumAt_cons]
     · simp only [hc, and_false, if_false]; omega
 
@@ -227,9 +228,9 @@ theorem prodI_append_one (l : List Int) (x : Int) : prodI (l ++ [x]) = prodI l *
   | cons a as ih => simp only [List.cons_append, prodI, ih, Int.mul_assoc]
 
 /-- reading a halo-split tensor through a two-coordinate access in place of the one-coordinate access of the original -/
-theorem valAt_split (d step halo : Nat) (hs : 0 < step) (pre post : List Int) (pI wI : Int) (hd : pre.length = d) (hp : 0 ≤ pI) (P : Pts) :
-    valAt (pre ++ pI :: wI :: post) (splitHaloAt d step halo P) =
-      if pI.toNat % step = 0 ∧ pI ≤ wI ∧ wI < pI + (step : Int) + (halo : Int) then valAt (pre ++ wI :: post) P else 0 := by
+theorem valAt_split (d step pre0 halo : Nat) (hs : 0 < step) (pre post : List Int) (pI wI : Int) (hd : pre.length = d) (hp : 0 ≤ pI) (P : Pts) :
+    valAt (pre ++ pI :: wI :: post) (splitHaloAt d step pre0 halo P) =
+      if pI.toNat % step = 0 ∧ pI ≤ wI + (pre0 : Int) ∧ wI < pI + (step : Int) + (halo : Int) then valAt (pre ++ wI :: post) P else 0 := by
   unfold valAt
   by_cases hall : (pre ++ wI :: post).all (fun i => decide (0 ≤ i)) = true
   · have hall' : (pre ++ pI :: wI :: post).all (fun i => decide (0 ≤ i)) = true := by
@@ -240,13 +241,13 @@ theorem valAt_split (d step halo : Nat) (hs : 0 < step) (pre post : List Int) (p
       simp only [List.all_append, List.all_cons, Bool.and_eq_true, decide_eq_true_eq] at hall
       exact hall.2.1
     simp only [List.map_append, List.map_cons]
-    rw [sumAt_splitHaloAt d step halo hs (pre.map Int.toNat) (post.map Int.toNat) pI.toNat wI.toNat (by simp [hd])]
-    have hiff : (pI.toNat % step = 0 ∧ pI.toNat ≤ wI.toNat ∧ wI.toNat < pI.toNat + step + halo) ↔
-        (pI.toNat % step = 0 ∧ pI ≤ wI ∧ wI < pI + (step : Int) + (halo : Int)) := by
+    rw [sumAt_splitHaloAt d step pre0 halo hs (pre.map Int.toNat) (post.map Int.toNat) pI.toNat wI.toNat (by simp [hd])]
+    have hiff : (pI.toNat % step = 0 ∧ pI.toNat ≤ wI.toNat + pre0 ∧ wI.toNat < pI.toNat + step + halo) ↔
+        (pI.toNat % step = 0 ∧ pI ≤ wI + (pre0 : Int) ∧ wI < pI + (step : Int) + (halo : Int)) := by
       constructor
       · rintro ⟨h1, h2, h3⟩; exact ⟨h1, by omega, by omega⟩
       · rintro ⟨h1, h2, h3⟩; exact ⟨h1, by omega, by omega⟩
-    by_cases hc : pI.toNat % step = 0 ∧ pI ≤ wI ∧ wI < pI + (step : Int) + (halo : Int)
+    by_cases hc : pI.toNat % step = 0 ∧ pI ≤ wI + (pre0 : Int) ∧ wI < pI + (step : Int) + (halo : Int)
     · rw [if_pos hc, if_pos (hiff.2 hc)]
     · rw [if_neg hc, if_neg (fun h => hc (hiff.1 h))]
   · have hall' : ¬ ((pre ++ pI :: wI :: post).all (fun i => decide (0 ≤ i)) = true) := by
@@ -265,6 +266,7 @@ structure PartCfg where
   fol : String → Option Nat          -- tensor ↦ index of the rank that follows the partitioned output rank
   stepF : String → Nat               -- its splitUniform step  (stride * n)
   haloF : String → Nat               -- its post-halo
+  preF : String → Nat := fun _ => 0  -- its pre-halo
 
 def convAcc (c : PartCfg) (a : AccA) : AccA := { e := renameVar c.q c.q0 a.e, proj := a.proj, ivl := a.ivl }
 def upAcc (c : PartCfg) (a : AccA) : AccA := { e := ⟨[(a.e.coef c.q, c.q1)], 0⟩, proj := isProjE a.e, ivl := false }
@@ -289,7 +291,7 @@ def convTerm (c : PartCfg) (t : TermAS) : TermAS := { t with tensors := t.tensor
 def convEnv (c : PartCfg) (env : String → Pts) : String → Pts := fun nm =>
   if nm = "tile__" then tilePts c.n
   else match c.fol nm with
-    | some i => splitHaloAt i (c.stepF nm) (c.haloF nm) (env nm)
+    | some i => splitHaloAt i (c.stepF nm) (c.preF nm) (c.haloF nm) (env nm)
     | none => env nm
 
 /-- the two assignments: `g1` of the partitioned form (q0 = c0, q1 = c1), `g0` of the Einsum as written (q = c0) -/
@@ -351,14 +353,14 @@ theorem accessVal_conv_follower (c : PartCfg) (env : String → Pts) (g1 g0 : St
     (hi : i < x.idx.length) (hs : 0 < c.stepF x.name) (haq : 0 ≤ (x.idx.getD i default).e.coef c.q) :
     accessValA (convEnv c env) g1 (convTensor c x) =
       if ((x.idx.getD i default).e.coef c.q * (c1 : Int)).toNat % c.stepF x.name = 0 ∧
-         (x.idx.getD i default).e.coef c.q * (c1 : Int) ≤ (x.idx.getD i default).e.eval g0 ∧
+         (x.idx.getD i default).e.coef c.q * (c1 : Int) ≤ (x.idx.getD i default).e.eval g0 + (c.preF x.name : Int) ∧
          (x.idx.getD i default).e.eval g0 < (x.idx.getD i default).e.coef c.q * (c1 : Int) + (c.stepF x.name : Int) + (c.haloF x.name : Int)
       then accessValA env g0 x else 0 := by
   unfold accessValA
   have hname : (convTensor c x).name = x.name := by simp [convTensor, hfol]
   have hidx : (convTensor c x).idx = convIdx c i x.idx := by simp [convTensor, hfol]
   rw [hname, hidx]
-  have henv : convEnv c env x.name = splitHaloAt i (c.stepF x.name) (c.haloF x.name) (env x.name) := by simp [convEnv, hnm, hfol]
+  have henv : convEnv c env x.name = splitHaloAt i (c.stepF x.name) (c.preF x.name) (c.haloF x.name) (env x.name) := by simp [convEnv, hnm, hfol]
   rw [henv]
   have hmem : x.idx.getD i default ∈ x.idx := by
     have : x.idx.getD i default = x.idx[i] := by simp [List.getD, List.getElem?_eq_getElem hi]
@@ -386,7 +388,7 @@ theorem accessVal_conv_follower (c : PartCfg) (env : String → Pts) (g1 g0 : St
     simp
   rw [h1, h0]
   have hc1 : (0 : Int) ≤ (x.idx.getD i default).e.coef c.q * (c1 : Int) := Int.mul_nonneg haq (Int.natCast_nonneg c1)
-  exact valAt_split i _ _ hs _ _ _ _ (by simp [List.length_take]; omega) hc1 _
+  exact valAt_split i _ _ _ hs _ _ _ _ (by simp [List.length_take]; omega) hc1 _
 
 /-! ### one term: summing out the upper coordinate -/
 
@@ -394,7 +396,8 @@ theorem accessVal_conv_follower (c : PartCfg) (env : String → Pts) (g1 g0 : St
 def FolOK (c : PartCfg) (ext : String → Nat) (x : TensorAS) (i : Nat) : Prop :=
   i < x.idx.length ∧ 1 ≤ (x.idx.getD i default).e.coef c.q ∧
   c.stepF x.name = ((x.idx.getD i default).e.coef c.q).toNat * c.n ∧
-  (x.idx.getD i default).e.const = 0 ∧ (∀ t ∈ (x.idx.getD i default).e.rest c.q, 0 ≤ t.1) ∧
+  (x.idx.getD i default).e.const = 0 ∧
+  c.preF x.name = (((x.idx.getD i default).e.rest c.q).map fun t => (-t.1).toNat * (ext t.2 - 1)).sum ∧
   c.haloF x.name = (((x.idx.getD i default).e.rest c.q).map fun t => t.1.toNat * (ext t.2 - 1)).sum
 
 instance (c : PartCfg) (ext : String → Nat) (x : TensorAS) (i : Nat) : Decidable (FolOK c ext x i) := by unfold FolOK; infer_instance
@@ -417,25 +420,33 @@ def TermOK (c : PartCfg) (ext : String → Nat) (t : TermAS) : Prop :=
 
 instance (c : PartCfg) (ext : String → Nat) (t : TermAS) : Decidable (TermOK c ext t) := by unfold TermOK; infer_instance
 
-/-- the offset `ρ` of a follower access lies between 0 and the halo when every variable is inside its extent -/
-theorem rho_bounds (g : String → Nat) (ext : String → Nat) : ∀ ts : List (Int × String), (∀ t ∈ ts, 0 ≤ t.1) → (∀ t ∈ ts, g t.2 < ext t.2) →
-    0 ≤ (ts.map fun t => t.1 * (g t.2 : Int)).sum ∧
+/-- the offset `ρ` of a follower access lies between minus the pre-halo and the post-halo when every variable is inside its extent
+    (a term with a positive coefficient adds to the post-halo, one with a negative coefficient to the pre-halo) -/
+theorem rho_bounds (g : String → Nat) (ext : String → Nat) : ∀ ts : List (Int × String), (∀ t ∈ ts, g t.2 < ext t.2) →
+    -((ts.map fun t => (-t.1).toNat * (ext t.2 - 1)).sum : Nat) ≤ (ts.map fun t => t.1 * (g t.2 : Int)).sum ∧
     (ts.map fun t => t.1 * (g t.2 : Int)).sum ≤ ((ts.map fun t => t.1.toNat * (ext t.2 - 1)).sum : Nat)
-  | [], _, _ => by simp
-  | t :: ts, hn, hr => by
-    obtain ⟨ih1, ih2⟩ := rho_bounds g ext ts (fun u hu => hn u (List.mem_cons_of_mem _ hu)) (fun u hu => hr u (List.mem_cons_of_mem _ hu))
-    have h0 := hn t (by simp)
+  | [], _ => by simp
+  | t :: ts, hr => by
+    obtain ⟨ih1, ih2⟩ := rho_bounds g ext ts (fun u hu => hr u (List.mem_cons_of_mem _ hu))
     have hg := hr t (by simp)
     simp only [List.map_cons, List.sum_cons, Int.natCast_add, Int.natCast_mul]
-    have hk : ((t.1.toNat : Nat) : Int) = t.1 := by omega
-    have h1 : 0 ≤ t.1 * (g t.2 : Int) := Int.mul_nonneg h0 (Int.natCast_nonneg _)
-    have h2 : t.1 * (g t.2 : Int) ≤ t.1 * ((ext t.2 - 1 : Nat) : Int) := by
-      apply Int.mul_le_mul_of_nonneg_left _ h0
-      omega
-    rw [hk]
-    constructor
-    · omega
-    · omega
+    have hgI : (g t.2 : Int) ≤ ((ext t.2 - 1 : Nat) : Int) := by omega
+    have hg0 : (0 : Int) ≤ (g t.2 : Int) := Int.natCast_nonneg _
+    have he0 : (0 : Int) ≤ ((ext t.2 - 1 : Nat) : Int) := Int.natCast_nonneg _
+    rcases Int.le_total 0 t.1 with h0 | h0
+    · have hk : ((t.1.toNat : Nat) : Int) = t.1 := by omega
+      have hk' : (((-t.1).toNat : Nat) : Int) = 0 := by omega
+      have h1 : 0 ≤ t.1 * (g t.2 : Int) := Int.mul_nonneg h0 hg0
+      have h2 : t.1 * (g t.2 : Int) ≤ t.1 * ((ext t.2 - 1 : Nat) : Int) := Int.mul_le_mul_of_nonneg_left hgI h0
+      rw [hk, hk']
+      constructor <;> omega
+    · have hk : ((t.1.toNat : Nat) : Int) = 0 := by omega
+      have hk' : (((-t.1).toNat : Nat) : Int) = -t.1 := by omega
+      have h1 : t.1 * (g t.2 : Int) ≤ 0 := Int.mul_nonpos_of_nonpos_of_nonneg h0 hg0
+      have h2 : (-t.1) * (g t.2 : Int) ≤ (-t.1) * ((ext t.2 - 1 : Nat) : Int) := Int.mul_le_mul_of_nonneg_left hgI (by omega)
+      rw [Int.neg_mul] at h2
+      rw [hk, hk']
+      constructor <;> omega
 
 theorem div_tile_unique (n c0 c1 : Nat) (hn : 0 < n) (h1 : c1 ≤ c0) (h2 : c0 < c1 + n) (hm : c1 % n = 0) : c1 = n * (c0 / n) := by
   have hk : c1 = c1 / n * n := (Nat.div_mul_cancel (Nat.dvd_of_mod_eq_zero hm)).symm
@@ -453,7 +464,7 @@ theorem follower_val (c : PartCfg) (ext : String → Nat) (env : String → Pts)
   obtain ⟨hnm, hfr, hfc⟩ := hok
   have hF : FolOK c ext x i := by
     have := hfc; unfold folCond at this; rw [hfol] at this; exact this
-  obtain ⟨hi, haq1, hstep, hconst, hnonneg, hhalo⟩ := hF
+  obtain ⟨hi, haq1, hstep, hconst, hpre, hhalo⟩ := hF
   have haq0 : 0 ≤ (x.idx.getD i default).e.coef c.q := by omega
   have hs : 0 < c.stepF x.name := by
     rw [hstep]; exact Nat.mul_pos (by omega) hn
@@ -464,8 +475,9 @@ theorem follower_val (c : PartCfg) (ext : String → Nat) (env : String → Pts)
   have hA1 : 1 ≤ A := by omega
   have hdec := eval_decomp c.q g0 (x.idx.getD i default).e
   rw [hr.hq, hconst, haqA] at hdec
-  obtain ⟨hr0, hr1⟩ := rho_bounds g0 ext _ hnonneg hrange
+  obtain ⟨hr0, hr1⟩ := rho_bounds g0 ext _ hrange
   rw [← hhalo] at hr1
+  rw [← hpre] at hr0
   generalize hρ : (((x.idx.getD i default).e.rest c.q).map fun t => t.1 * (g0 t.2 : Int)).sum = ρ at hdec hr0 hr1
   rw [haqA, hdec, hstep]
   have htn : ((A : Int) * (c1 : Int)).toNat = A * c1 := by
